@@ -67,6 +67,7 @@ func run(r *enumx.Run, replay *enumx.ReplayCase) {
 	var mu sync.Mutex
 	outcomes := map[string]int{}
 	perFn := map[string]int{}
+	panics := map[string]int{}
 	type pending struct {
 		f finding
 		c Case
@@ -87,6 +88,11 @@ func run(r *enumx.Run, replay *enumx.ReplayCase) {
 				nt++
 			}
 			loc[out.kind]++
+			if out.kind == "panic" {
+				mu.Lock()
+				panics[sc.id[:strings.Index(sc.id+"|", "|")]+": "+out.err]++
+				mu.Unlock()
+			}
 			for _, f := range fs {
 				found[i] = append(found[i], pending{f, Case{Scenario: sc.id, Spare: lay, Layout: layoutString(sc, lay)}})
 			}
@@ -119,6 +125,7 @@ func run(r *enumx.Run, replay *enumx.ReplayCase) {
 		}
 	}
 	r.Set("call_outcomes", oc)
+	r.Set("panics_by_function_and_message", panics)
 	if os.Getenv("C17_VERBOSE") != "" {
 		var ks []string
 		for k := range perFn {
@@ -129,6 +136,7 @@ func run(r *enumx.Run, replay *enumx.ReplayCase) {
 			fmt.Printf("  %-45s %d calls\n", k, perFn[k])
 		}
 		fmt.Println("  outcomes:", oc)
+		fmt.Println("  panics:", panics)
 	}
 	for _, i := range []int{0, len(scs) / 3, 2 * len(scs) / 3, len(scs) - 1} {
 		lay := layouts(scs[i])
